@@ -85,7 +85,7 @@ theorem storeValuesB_sem : ∀ (vars : List Var) (i : Nat) (s s' : St), (vars.al
     storeValues conv vars (tmpTextsB i vars.length) s = .ok ((), s') →
     ∃ new, Adv s s' new 0 ∧
       ∀ env vs, vs.length = vars.length → ∀ ρ out, Agree env ρ → TmpVals i vs ρ →
-        ∃ ρ', runN new.reverse ⟨ρ, out⟩ = some ⟨ρ', out⟩ ∧ Agree (Src.storeAll env vars vs) ρ' ∧ ρ' "_e" = ρ "_e"
+        ∃ ρ', runN new.reverse ⟨ρ, out⟩ = some ⟨ρ', out⟩ ∧ Agree (Src.storeAll env vars vs) ρ' ∧ Keeps ρ ρ' 
   | [], i, s, s', _, _, h => by
     simp only [List.length_nil, tmpTextsB] at h
     unfold storeValues at h
@@ -94,7 +94,7 @@ theorem storeValuesB_sem : ∀ (vars : List Var) (i : Nat) (s s' : St), (vars.al
     intro env vs hl ρ out ha _
     have : vs = [] := List.eq_nil_of_length_eq_zero (by simpa using hl)
     subst this
-    exact ⟨ρ, rfl, by simpa [Src.storeAll] using ha, rfl⟩
+    exact ⟨ρ, rfl, by simpa [Src.storeAll] using ha, Keeps.refl ρ⟩
   | x :: xs, i, s, s', hg, h0, h => by
     simp only [List.length_cons, tmpTextsB] at h
     unfold storeValues at h
@@ -120,7 +120,7 @@ theorem storeValuesB_sem : ∀ (vars : List Var) (i : Nat) (s s' : St), (vars.al
       · rw [List.reverse_append, runN_append]
         simp only [List.reverse_cons, List.reverse_nil, List.nil_append, runN, hstep, Option.bind]
         exact run
-      · rw [ee, set_other _ _ _ _ (good_ne_e _ hg.1)]
+      · exact (keeps_set_good _ _ hg.1).trans ee
 
 theorem evalList32_length : ∀ (es : List Expr) (env : Src.Env) (vs : List Src.Val), Src32.evalList env es = some vs → vs.length = es.length
   | [], _, vs, h => by simp [Src32.evalList] at h; subst h; rfl
@@ -164,7 +164,7 @@ theorem assignNB_sem {vars : List Var} {vals : List Expr} (hlen : vars.length = 
   refine ⟨ρ2, ?_, fun _ => ⟨ha2, ?_⟩⟩
   · rw [List.reverse_append, runLinesB_of_runN run1]
     exact runLinesB_all_normal run2
-  · rw [ee2]
-    exact fr1 _ (fun k => e_ne_helper k) (fun j _ => e_ne_tmp j)
+  · refine Keeps.trans ⟨fr1 _ (fun k => e_ne_helper k) (fun j _ => e_ne_tmp j), fun j => ?_⟩ ee2
+    exact fr1 _ (fun k => flag_ne_helper j k) (fun i _ => flag_ne_tmp j i)
 
 end Tsh.SemB
